@@ -126,7 +126,7 @@ def _version_of_pv(pv):
 
 
 # ------------------------------------------------------------------------ the envelope oracle
-def judge_response(resp, req_bytes, path):
+def judge_response(resp, req_bytes, path, want_reasons=None):
     """-> (buckets, info).  resp: bytes the session sent; req_bytes: the request as sent;
     path: which construction path produced the response (observed by the spy; '?' if unknown)."""
     out = []
@@ -216,16 +216,15 @@ def judge_response(resp, req_bytes, path):
                 out.append(("%s|envelope|%s|unique-batch-item-id-invented" % (PID, path),
                             "item %d" % i))
     # --- non-batch paths: one failed item with the reason section 11 assigns to the situation
-    want_reason = {"parse-error": L.R_INVALID_MESSAGE, "auth-error": L.R_AUTH_NOT_SUCCESSFUL,
-                   "oversize-replacement": L.R_RESPONSE_TOO_LARGE}.get(path)
     if path in PATHS and path != "engine-batch":
         if len(items) != 1 or info["failed"] != 1:
             out.append(("%s|envelope|%s|error-response-is-not-one-failed-item" % (PID, path),
                         "%d items, %d failed" % (len(items), info["failed"])))
-        elif want_reason is not None and info["reasons"] != [want_reason]:
+        elif want_reasons is not None and (len(info["reasons"]) != 1
+                                            or info["reasons"][0] not in want_reasons):
             out.append(("%s|envelope|%s|unexpected-result-reason" % (PID, path),
-                        "reasons %r, expected 0x%x (%s)"
-                        % (info["reasons"], want_reason, L.REASON[want_reason])))
+                        "reasons %r, expected %s"
+                        % (info["reasons"], " or ".join(L.REASON[r] for r in want_reasons))))
     seen = {}
     for k, d in out:
         seen.setdefault(k, d)
@@ -377,23 +376,41 @@ class _Conn(object):
         pass
 
 
-def _classify(events):
-    """Construction path of one response from the spy events recorded before its 'sent' marker."""
+def cert_must_fail(cert, tls):
+    """docs/source/server.rst (Authentication): the client certificate must be there, carry the
+    clientAuth extended key usage when the TLS client-auth check is enabled, and name exactly one
+    common name (the client identity)."""
+    if cert is None:
+        return True
+    if tls and cert.get("eku") not in ("client", "both"):
+        return True
+    return len(cert["cns"]) != 1
+
+
+def _classify(events, cert_bad):
+    """Construction path of one response, from the spy events recorded before its 'sent'
+    marker: did the engine see the request (process_request called / returned), was a canned
+    error response built afterwards.  -> (path, acceptable result reasons or None)"""
     called = any(e[0] == "process_request" for e in events)
     returned = any(e[0] == "returned" for e in events)
     errs = [e for e in events if e[0] == "error_response"]
     if called and returned:
-        if errs:
-            return "oversize-replacement" if errs[-1][1] == L.R_RESPONSE_TOO_LARGE else "?"
-        return "engine-batch"
+        if errs:        # the engine's answer was replaced
+            return "oversize-replacement", (L.R_RESPONSE_TOO_LARGE,)
+        return "engine-batch", None
     if called:
-        return "engine-request-error" if errs else "?"
-    if errs:
-        if errs[-1][1] == L.R_AUTH_NOT_SUCCESSFUL:
-            return "auth-error"
+        if not errs:
+            raise core.HarnessError("response sent without a response construction: %r" % (events,))
+        return "engine-request-error", None
+    if not errs:
+        raise core.HarnessError("response sent without a response construction: %r" % (events,))
+    if cert_bad:
+        # the request never reached the engine; whether the certificate or (for a request that
+        # is also undecodable) the message is blamed first is left open
         if errs[-1][1] == L.R_INVALID_MESSAGE:
-            return "parse-error"
-    return "?"
+            return "parse-error", (L.R_INVALID_MESSAGE,)
+        return "auth-error", (L.R_AUTH_NOT_SUCCESSFUL,)
+    return "parse-error", (L.R_INVALID_MESSAGE,)
 
 
 def _last_uid(resp):
@@ -525,8 +542,8 @@ def run_history(spec, stats=None):
                 if sent_ix is None:
                     continue
                 resp = conn.sent[sent_ix]
-                path = _classify(events)
-                bk, info = judge_response(resp, data, path)
+                path, reasons = _classify(events, cert_must_fail(cert, conn_spec.get("tls", True)))
+                bk, info = judge_response(resp, data, path, reasons)
                 buckets.extend(bk)
                 bump("B_responses")
                 bump("B_path:" + path)
@@ -546,8 +563,6 @@ def run_history(spec, stats=None):
                     bump("B_reason:" + L.REASON.get(r, "0x%x" % r))
                 if info["version"] is not None:
                     bump("B_response_version:%d.%d" % info["version"])
-                if path == "?":
-                    buckets.append(("%s|harness|unclassified-response-path" % PID, repr(events)))
                 u = _last_uid(resp)
                 if u is not None:
                     last_uid = u
